@@ -54,6 +54,7 @@ import (
 	"io"
 	"log"
 	"os"
+	"sync"
 	"time"
 
 	"filippo.io/age"
@@ -87,6 +88,12 @@ type storage struct {
 
 	// smallMeta tracks a heap of meta blobs smaller than the target size.
 	smallMeta *metaBlobHeap
+
+	// scanRolledUp is non-nil while the start-up scan of the meta blobs runs.
+	// It holds the meta blobs that roll-ups started by that scan have since
+	// removed; the scan may have enumerated them before they went away.
+	scanMu       sync.Mutex
+	scanRolledUp map[blob.Ref]bool
 }
 
 // Format of encrypted blobs:
